@@ -16,8 +16,11 @@ EXTENDS Naturals, Sequences, FiniteSets, TLC, Json
 Trace == ndJsonDeserialize("trace.ndjson")
 Clients == {"A", "B", "C"}
 
-VARIABLES l, traceId, passed, lastStore, storing, overlap, expect, viol, judged
-vars == <<l, traceId, passed, lastStore, storing, overlap, expect, viol, judged>>
+VARIABLES l, traceId, passed, lastStore, storing, overlap, expect, viol, judged,
+          mutable,                    \* the lock-based cache: overlapping Stores are ordered by their critical sections
+          acqSeq, acq, lastStoreAcq   \* number of critical sections so far, the one each client's Store is/was in (0: none), the one of lastStore
+vars == <<l, traceId, passed, lastStore, storing, overlap, expect, viol, judged, mutable, acqSeq, acq, lastStoreAcq>>
+lockVars == <<mutable, acqSeq, acq, lastStoreAcq>>
 Ev == Trace[l]
 Consume == l <= Len(Trace) /\ l' = l + 1
 Verdict == PrintT(<<"VERDICT", ToJson([id |-> traceId, viol |-> viol, judged |-> judged])>>)
@@ -26,6 +29,7 @@ Flag(s) == viol' = viol \cup s
 
 TraceInit == l = 1 /\ traceId = 0 /\ passed = {} /\ lastStore = 0 /\ storing = 0 /\ overlap = FALSE
              /\ expect = [c \in Clients |-> 0] /\ viol = {} /\ judged = 0
+             /\ mutable = FALSE /\ acqSeq = 0 /\ acq = [c \in Clients |-> 0] /\ lastStoreAcq = 0
 
 Sweep ==
     /\ Consume /\ Ev.op = "Sweep"
@@ -35,42 +39,57 @@ Sweep ==
     /\ viol' = IF Ev.match = "void" THEN {}
                ELSE (IF Ev.fetch = "" /\ Ev.match \notin {"v1", "v2"} THEN {"fetch-installed-incomplete-tree"} ELSE {})
                     \cup (IF Ev.store = "" /\ ~(Ev.fetch = "" /\ Ev.match = "v2") THEN {"store-success-not-visible"} ELSE {})
-    /\ UNCHANGED <<passed, lastStore, storing, overlap, expect>>
+    /\ UNCHANGED <<passed, lastStore, storing, overlap, expect, lockVars>>
 
 Begin == /\ Consume /\ Ev.op = "Begin" /\ (traceId # 0 => Verdict)
          /\ traceId' = Ev.id /\ passed' = {} /\ lastStore' = 0 /\ storing' = 0 /\ overlap' = FALSE
          /\ expect' = [c \in Clients |-> 0] /\ viol' = {} /\ judged' = 0
-End == Consume /\ Ev.op = "End" /\ (traceId # 0 => Verdict) /\ UNCHANGED <<traceId, passed, lastStore, storing, overlap, expect, viol, judged>>
+         /\ mutable' = (Ev.cache = "mutable") /\ acqSeq' = 0 /\ acq' = [c \in Clients |-> 0] /\ lastStoreAcq' = 0
+End == Consume /\ Ev.op = "End" /\ (traceId # 0 => Verdict) /\ UNCHANGED <<traceId, passed, lastStore, storing, overlap, expect, viol, judged, lockVars>>
 
 StoreBegin == /\ Consume /\ Ev.op = "StoreBegin"
               /\ passed' = passed \cup {Ev.v} /\ storing' = storing + 1 /\ lastStore' = 0
               /\ overlap' = (overlap \/ storing >= 1)     \* Stores that overlap have no defined order
               /\ expect' = [c \in Clients |-> 0]
-              /\ UNCHANGED <<traceId, viol, judged>>
+              /\ acq' = [acq EXCEPT ![Ev.c] = 0] /\ lastStoreAcq' = 0
+              /\ UNCHANGED <<traceId, viol, judged, mutable, acqSeq>>
+\* a Store entered its critical section (it created the entry's lock directory): what an earlier Store made visible may be replaced from now on
+LockAcquired == /\ Consume /\ Ev.op = "LockAcquired"
+                /\ acqSeq' = acqSeq + 1 /\ acq' = [acq EXCEPT ![Ev.c] = acqSeq + 1]
+                /\ lastStore' = 0 /\ lastStoreAcq' = 0 /\ expect' = [c \in Clients |-> 0]
+                /\ UNCHANGED <<traceId, passed, storing, overlap, viol, judged, mutable>>
 \* the baseline Store of v1 is reported without a StoreBegin
 Stored == /\ Consume /\ Ev.op = "Stored"
           /\ passed' = passed \cup {Ev.v}
           /\ storing' = (IF storing > 0 /\ Ev.v # 1 THEN storing - 1 ELSE storing)
-          /\ lastStore' = (IF Ev.result = "" /\ storing <= 1 /\ ~overlap THEN Ev.v ELSE 0)
+          \* a Store alone defines what is visible.  Lock-based cache, overlapping Stores: the critical sections order them - a
+          \* successful Store whose critical section is the latest defines it; a failed Store whose critical section came before
+          \* the defining one (or that never had one) leaves it alone
+          /\ LET latest == mutable /\ acq[Ev.c] # 0 /\ acq[Ev.c] = acqSeq
+                 harmless == mutable /\ lastStore # 0 /\ Ev.v # 1 /\ acq[Ev.c] < lastStoreAcq
+             IN /\ lastStore' = (IF Ev.result = "" /\ ((storing <= 1 /\ ~overlap) \/ latest) THEN Ev.v
+                                ELSE IF Ev.result # "" /\ harmless THEN lastStore ELSE 0)
+                /\ lastStoreAcq' = (IF Ev.result = "" /\ ((storing <= 1 /\ ~overlap) \/ latest) THEN (IF Ev.v = 1 THEN 0 ELSE acq[Ev.c])
+                                   ELSE IF Ev.result # "" /\ harmless THEN lastStoreAcq ELSE 0)
           /\ overlap' = (IF storing <= 1 THEN FALSE ELSE overlap)
-          /\ UNCHANGED <<traceId, expect, viol, judged>>
+          /\ UNCHANGED <<traceId, expect, viol, judged, mutable, acqSeq, acq>>
 FetchBegin == /\ Consume /\ Ev.op = "FetchBegin"
               /\ expect' = [expect EXCEPT ![Ev.c] = IF storing = 0 THEN lastStore ELSE 0]
-              /\ UNCHANGED <<traceId, passed, lastStore, storing, overlap, viol, judged>>
+              /\ UNCHANGED <<traceId, passed, lastStore, storing, overlap, viol, judged, lockVars>>
 Fetched == /\ Consume /\ Ev.op = "Fetched"
            /\ judged' = judged + 1
            /\ Flag((IF Ev.result = "" /\ ~(\E v \in passed : Ev.match = V(v)) THEN {"fetch-installed-incomplete-tree"} ELSE {})
                    \cup (IF Ev.quiet /\ expect[Ev.c] # 0 /\ ~(Ev.result = "" /\ Ev.match = V(expect[Ev.c]))
                          THEN {"store-success-not-visible"} ELSE {}))
-           /\ UNCHANGED <<traceId, passed, lastStore, storing, overlap, expect>>
+           /\ UNCHANGED <<traceId, passed, lastStore, storing, overlap, expect, lockVars>>
 FinalFetch == /\ Consume /\ Ev.op = "FinalFetch"
               /\ judged' = judged + 1
               /\ Flag((IF Ev.result = "" /\ ~(\E v \in passed : Ev.match = V(v)) THEN {"fetch-installed-incomplete-tree"} ELSE {})
                       \cup (IF lastStore # 0 /\ storing = 0 /\ ~(Ev.result = "" /\ Ev.match = V(lastStore))
                             THEN {"store-success-not-visible"} ELSE {}))
-              /\ UNCHANGED <<traceId, passed, lastStore, storing, overlap, expect>>
+              /\ UNCHANGED <<traceId, passed, lastStore, storing, overlap, expect, lockVars>>
 
-TraceNext == Sweep \/ Begin \/ End \/ StoreBegin \/ Stored \/ FetchBegin \/ Fetched \/ FinalFetch
+TraceNext == Sweep \/ Begin \/ End \/ StoreBegin \/ LockAcquired \/ Stored \/ FetchBegin \/ Fetched \/ FinalFetch
 TraceSpec == TraceInit /\ [][TraceNext]_vars
 TraceAccepted == LET n == TLCGet("stats").diameter - 1 IN PrintT(<<"TRACE_MATCHED", n>>) /\ n = Len(Trace)
 =============================================================================
